@@ -248,12 +248,14 @@ fn run(ctx: &mut Ctx) {
             ("string", ["\"a\"", "\"b\"", "\"c\""]),
             ("(int32, bool)", ["(1, true)", "(2, false)", "(3, true)"]),
             ("Opt[int32]", ["Opt::Som(1)", "Opt::Non", "Opt::Som(3)"]),
-            ("dyn Show", ["1", "true", "2"]),
+            // items that are `dyn Show` already (goml does not coerce the items of a literal one by one)
+            ("dyn Show", ["d1", "d2", "d3"]),
         ];
         ctx.case("array-literal-lengths", |c| {
             for (ety, items) in elems.iter() {
                 // well-typed control: declared length == item count
-                let good = format!("{}fn main() -> unit {{\n    let a: [{}; 3] = [{}, {}, {}];\n    ()\n}}\n", head, ety, items[0], items[1], items[2]);
+                let pre = "    let d1: dyn Show = 1;\n    let d2: dyn Show = true;\n    let d3: dyn Show = 2;\n";
+                let good = format!("{}fn main() -> unit {{\n{}    let a: [{}; 3] = [{}, {}, {}];\n    ()\n}}\n", head, pre, ety, items[0], items[1], items[2]);
                 if ir_monitor(c, "array-literal-lengths", &good) {
                     c.count("array_length_controls_accepted", 1);
                 } else {
@@ -266,7 +268,7 @@ fn run(ctx: &mut Ctx) {
                         ("call-argument", format!("    let _ = take([{}]);\n", lit)),
                     ] {
                         let take = format!("fn take(a: [{}; {}]) -> int32 {{ 0 }}\n", ety, declared);
-                        let bad = format!("{}{}fn main() -> unit {{\n{}    ()\n}}\n", head, take, body);
+                        let bad = format!("{}{}fn main() -> unit {{\n{}{}    ()\n}}\n", head, take, pre, body);
                         let inj = inject::Injection { kind: "array-literal-length", description: format!("[{}; {}] given {} items ({})", ety, declared, given, pos) };
                         check_injection(c, "array-literal-lengths", &bad, &inj);
                     }
